@@ -15,6 +15,7 @@ use ark_poly::{DenseUVPolynomial, Polynomial};
 use ark_poly_commit::linear_codes::LinCodeParametersInfo;
 use ark_poly_commit::QuerySet;
 use ark_serialize::{CanonicalSerialize, Compress};
+use std::collections::BTreeMap;
 
 fn sz<T: CanonicalSerialize>(x: &T) -> (usize, usize) {
     let mut b = Vec::new();
@@ -378,6 +379,65 @@ where
     }
 }
 
+
+/// Univariate Ligero: several polynomials of different sizes in ONE commit call.  The proof for a member has the size it
+/// has when the polynomial is committed on its own (sizes are a function of the opened polynomial, not of its
+/// neighbours in the call), for every ordered pair of five sizes, opened member first / second.
+pub fn lig_one_call_sizes(rec: &mut Rec) {
+    type S = SLig;
+    let cfg = KeyCfg::uni(1 << 20, 1 << 20, 1, None);
+    let degs = [3usize, 255, 1000, 4095, 16383];
+    let keys = match build_keys::<S>(&cfg, rec.seed) {
+        Ok(k) => k,
+        Err(_) => return,
+    };
+    let z = <S as Sch>::points(&cfg, rec.seed)[0].1.clone();
+    let mut alone: BTreeMap<usize, usize> = BTreeMap::new();
+    for i in 0..degs.len() {
+        for j in 0..degs.len() {
+            if i == j {
+                continue;
+            }
+            let id = format!("LIG/size/one-call/degrees=[{},{}]", degs[i], degs[j]);
+            if !rec.take(&id) {
+                continue;
+            }
+            rec.dim("scheme", "LIG");
+            rec.op(4);
+            let mk = |d: usize, l: &str| lp::<S>(l, dense_uni::<S>(d, rec.seed).unwrap(), None, None);
+            for d in [degs[i], degs[j]] {
+                if !alone.contains_key(&d) {
+                    if let Ok(c) = commit_set::<S>(&keys, vec![mk(d, "p")], rec.seed, 0) {
+                        if let Ok(s1) = open_single::<S>(&keys, &c, &[0], &z, 0, rec.seed, 0) {
+                            let bp: BPf<S> = vec![s1.proof.clone()].into();
+                            alone.insert(d, sz(&bp).0);
+                        }
+                    }
+                }
+            }
+            let c = match commit_set::<S>(&keys, vec![mk(degs[i], "a"), mk(degs[j], "b")], rec.seed, 0) {
+                Ok(c) => c,
+                Err(o) => {
+                    viol(rec, "LIG", "commit/in-domain", &id, format!("commit failed: {}", o.short()));
+                    continue;
+                }
+            };
+            let mut ok = true;
+            for (k, d) in [(0usize, degs[i]), (1, degs[j])] {
+                if let Ok(s1) = open_single::<S>(&keys, &c, &[k], &z, 0, rec.seed, 0) {
+                    let bp: BPf<S> = vec![s1.proof.clone()].into();
+                    let got = sz(&bp).0;
+                    if Some(&got) != alone.get(&d) {
+                        ok = false;
+                        viol(rec, "LIG", "proof-size", &id, format!("the proof for the degree-{} member of a call over degrees [{},{}] has {} bytes; committed on its own the same polynomial gets a proof of {:?} bytes", d, degs[i], degs[j], got, alone.get(&d)));
+                    }
+                }
+            }
+            rec.class(if ok { "size-law-holds" } else { "size-law-broken" });
+        }
+    }
+}
+
 /// a dense univariate polynomial of the given degree for the (only) univariate hash-based adapter
 fn dense_uni<S: Sch<F = Fr381>>(deg: usize, seed: u64) -> Option<S::P> {
     let r = rho_stream::<Fr381>(seed, 9, deg + 1);
@@ -479,6 +539,7 @@ pub fn run(rec: &mut Rec) {
     group_scheme::<SPst>(rec, pst);
     group_scheme::<SHyr>(rec, (1..=if t { 6 } else { 5 }).map(|k| KeyCfg::ml(2 * k)).collect());
     hash_scheme::<SLig>(rec, t);
+    lig_one_call_sizes(rec);
     hash_scheme::<SMll>(rec, t);
     hash_scheme::<SBrk>(rec, t);
     special(rec);
